@@ -66,6 +66,8 @@ def units():
                  lambda m=None: __import__("checks.solution_common", fromlist=["x"]).run_vector_potential(m, prefixes=("C08.",)), props=["C08", "C20"], timeout=900),
             Unit("Solution.load_tdgl_data[current density]", "tdgl.solution.solution:Solution.load_tdgl_data / current_density + tdgl.device.device:Device.K0",
                  lambda m=None: __import__("checks.solution_common", fromlist=["x"]).run_current_density(m, prefixes=("C08.",)), props=["C08", "C20"], timeout=300),
+            Unit("uniform_Bz_vector_potential / ConstantField", "tdgl.em:uniform_Bz_vector_potential + tdgl.sources.constant:constant_field_vector_potential",
+                 lambda m=None: __import__("checks.field_common", fromlist=["x"]).run_uniform_field(m, prefixes=("C08.", "C04.")), props=["C08", "C04"], timeout=300),
             Unit("flux per triangle", "lemma over the formula of tdgl.em:uniform_Bz_vector_potential", run_flux, props=["C08", "C04"], timeout=300),
             _h.bounded_unit("physical outputs across unit systems [bounded]", "tdgl.solve / Solution (real runs on one shared mesh)", "C08", _bounded_quick, "same_physical_outputs_in_different_unit_systems[um/mm/nm, static and ramped field]", timeout=900)]
 
@@ -78,6 +80,11 @@ def replay_scope(unit, obl):
 def replay(unit, obl):
     import tdgl
     from checks import physics_native as pn
+    if unit.startswith("uniform_Bz_vector_potential"):
+        from checks import field_common
+        bad, n = field_common.native(0)
+        if bad:
+            return dict(confirmed=True, failing_input=bad[0], n_failing=len(bad), evaluations=n, tdgl_file=tdgl.__file__)
     bad, n = pn.units_cases(0)
     b2, n2 = pn.conservation_cases(0)
     bad += [x for x in b2 if "requested" in x["what"]]
@@ -98,6 +105,7 @@ MUTANTS = [
     dict(name="field_at_position forgets the device length units", edits=[("tdgl.solution.solution", "                length_units=device.length_units,\n                current_units=self.current_units,\n                vector=vector,", "                current_units=self.current_units,\n                vector=vector,")]),
     dict(name="Bc2 with xi instead of xi^2", edits=[(D_, "(2 * np.pi * self.coherence_length**2)", "(2 * np.pi * self.coherence_length)")]),
     dict(name="K0 misses the factor 4", edits=[(D_, "K0 = 4 * self.coherence_length * self.Bc2 / (ureg(\"mu_0\") * self.Lambda)", "K0 = self.coherence_length * self.Bc2 / (ureg(\"mu_0\") * self.Lambda)")]),
+] + __import__("checks.field_common", fromlist=["x"]).MUTANTS + [
     dict(name="kernel areas use xi instead of xi^2", edits=[(S_, "self.areas = A_scale.magnitude * mesh.areas * xi**2", "self.areas = A_scale.magnitude * mesh.areas * xi")]),
 ]
 
